@@ -4,7 +4,7 @@
 D="$1"; X="$2"; CHECKS="$3"
 W=$(mktemp -d /tmp/seedeval-XXXXXX)
 git -C /repo worktree add -q --detach "$W/repo" HEAD || exit 3
-cp "$D/demo_$X.py" "$W/demo.py"
+cp "$D"/*.py "$W"/ 2>/dev/null; cp "$D/demo_$X.py" "$W/demo.py"
 ( cd "$W/repo" && PYTHONPATH="$W/repo/src" timeout 600 /venv/bin/python "$W/demo.py" >/dev/null 2>&1 ); echo "demo clean exit=$?"
 git -C "$W/repo" apply "$D/$X.diff" || { echo "PATCH DOES NOT APPLY"; git -C /repo worktree remove --force "$W/repo"; rm -rf "$W"; exit 3; }
 ( cd "$W/repo" && PYTHONPATH="$W/repo/src" timeout 600 /venv/bin/python "$W/demo.py" >/dev/null 2>&1 ); echo "demo patched exit=$?"
